@@ -55,10 +55,13 @@ fn main() {
 
                 match write_code_hex(outpath, &built) {
                     Ok(()) => {}
-                    Err(e) => println!(
-                        "Failed to generate and write hex file {}, with error {}",
-                        file_name, e
-                    ),
+                    Err(e) => {
+                        println!(
+                            "Failed to generate and write hex file {}, with error {}",
+                            file_name, e
+                        );
+                        std::process::exit(1);
+                    }
                 }
             } else {
                 println!("Nothing to write of code for file {}", file_name);
@@ -91,10 +94,13 @@ fn main() {
 
                 match write_eeprom_hex(outpath, &built) {
                     Ok(()) => {}
-                    Err(e) => println!(
-                        "Failed to generate and write hex file {}, with error {}",
-                        file_name, e
-                    ),
+                    Err(e) => {
+                        println!(
+                            "Failed to generate and write hex file {}, with error {}",
+                            file_name, e
+                        );
+                        std::process::exit(1);
+                    }
                 }
             } else {
                 println!("Nothing to write of eeprom for file {}", file_name);
@@ -129,6 +135,7 @@ fn main() {
         }
         Err(e) => {
             println!("Failed to build file {}, with error {}", file_name, e);
+            std::process::exit(1);
         }
     }
 }
